@@ -30,7 +30,8 @@ namespace bxdecay0 {
          -0.1053605, 0.0000000, 0.1823216, 0.3364722,  0.4700036,  0.5877866,  0.6931472,  0.7884574,
          0.8754688,  0.9555114, 1.029619,  1.098612,   1.163151,   1.223776,   1.280934,   1.335001,
          1.386294,   1.504077,  1.609438,  1.704748,   1.791759,   1.871802,   1.945910,   2.014903,
-         2.079442,   2.197225,  2.302585,  2.397895,   2.484907,   2.564949,   2.639057,   2.890372,
+         2.079442,   2.197225,  2.302585,  2.397895,   2.484907,   2.564949,   2.639057,   2.772589,
+         2.890372,
          2.995732,   3.218876,  3.401197,  3.555348,   3.688879,   3.806663,   3.912023};
 
 } // end of namespace bxdecay0
